@@ -263,3 +263,36 @@ def describe_env(env: Env) -> str:
     parts = [f"{'' if v else 'not '}({k})" for k, v in env.atoms.items()] + [f"{k}={v}" for k, v in env.ints.items()] \
         + [f"{k}={v!r}" for k, v in env.strs.items()]
     return ', '.join(parts) if parts else 'true'
+
+
+def iff_table(cfg: CFG, start: int, header: Optional[int], atoms: Dict[str, ast.AST], role_of: Callable[[str, ast.AST], Optional[str]],
+              required: Callable[[Dict[str, bool]], Optional[bool]], executed: Callable[[Set[int]], bool]) -> Tuple[List[str], List[str]]:
+    """Truth table of "the action is executed" against `required(roles)` over all valuations of the atoms.
+    Atoms with a role (role_of != None) define the requirement; atoms without a role are universally quantified: the
+    requirement has to hold whatever their value.  Returns (mismatches, unclassified atom texts)."""
+    roles = {t: role_of(t, a) for t, a in atoms.items()}
+    unknown = [t for t, r in roles.items() if r is None]
+    bad: List[str] = []
+    for env in valuations(sorted(atoms)):
+        val: Dict[str, bool] = {}
+        consistent = True
+        for t, r in roles.items():
+            if r is None:
+                continue
+            neg = r.startswith('!')
+            key = r[1:] if neg else r
+            v = env.atoms[t] != neg
+            if key in val and val[key] != v:
+                consistent = False
+            val[key] = v
+        if not consistent:
+            continue
+        want = required(val)
+        if want is None:
+            continue
+        reach = walk(cfg, start, env, loop_header_stop=header, unknown='both')
+        ex = executed(reach)
+        if ex != want:
+            extra = ', '.join(f"{'' if env.atoms[t] else 'not '}({t})" for t in unknown)
+            bad.append(f"[{describe_env(Env({t: env.atoms[t] for t in atoms if roles[t] is not None}))}" + (f"; with {extra}" if extra else '') + f"] executed={ex}, required={want}")
+    return bad, unknown
